@@ -148,4 +148,40 @@ theorem C12_join_all {s : State} (h : sys.Reach s) (t : Nat) (us : List Nat) (ra
   · simp only [joinRet, if_true]; split <;> simp_all
   · intro hn; simp only [joinRet, if_true, hn, Bool.false_eq_true, if_false]
 
+
+/-- The sixty seconds of an unjoined thread: when they run out the thread leaves `linger` — a failure is only logged; a thread
+whose parent is a Thread takes itself out of that parent's list — and in every case its outcome stays where it was: a join()
+that comes later returns or raises exactly as an early one would (C12_join_value, C12_failure_is_raised hold in every
+reachable state, before and after). -/
+theorem C12_expiry_keeps_the_outcome {s s' : State} {t : Nat} {l : Label} (hph : s.phase t = .linger) (hj : s.joiner t = false)
+    (hx : s.lingerFired t = true) (hs : step s t = some (s', l)) :
+    s'.phase t = .dead ∧ s'.outcome = s.outcome ∧ s'.stopped = s.stopped ∧
+    (l = .tau ∨ l = .unreg t (s.parent t) ((s.children (s.parent t)).contains t)) := by
+  unfold step at hs
+  rw [hph] at hs
+  simp only [hj, hx, Bool.false_eq_true, if_false, if_true] at hs
+  split at hs
+  · cases hs; exact ⟨by simp [upd], rfl, rfl, Or.inl rfl⟩
+  · cases hs; exact ⟨by simp [upd], rfl, rfl, Or.inr rfl⟩
+
+/-- non-vacuity: main starts t1, t1 starts t2 and lives on; t2 returns 5 and nobody joins it; sixty seconds pass; t2 takes itself
+out of t1's list; THEN t1 joins t2 and gets 5 -/
+def demoLate : Option (State × State) := do
+  let s ← call init 0 .spawn
+  let s := settle 10 s 0
+  let s := settle 10 s 1
+  let s ← call s 1 .spawn
+  let s := settle 10 s 1
+  let s := settle 10 s 2
+  let s ← call s 2 (.finish (.ok 5))
+  let s := settle 40 s 2                  -- t2's shutdown block; it lingers
+  let s := expire s 2
+  let s1 := settle 5 s 2                  -- the sixty seconds are over
+  let s ← call s1 1 (.join 2 none)
+  let s := settle 40 s 1
+  pure (s1, s)
+
+example : (demoLate.map fun q => (q.1.phase 2, q.1.children 1, q.1.everChild 1, q.2.call 1, q.2.outcome 2)) =
+    some (.dead, [], [2], .idle (.value 5), some (.ok 5)) := by decide
+
 end MoThreads.ThreadTree
